@@ -19,6 +19,7 @@ class LocalDeme(AbstractDeme):
         starting_pop = [self._sprout_seed]
         self._history.append([starting_pop])
         self._run_history: list[Individual] = []
+        self._evaluated: dict[bytes, float] = {}
 
         self._options = {}
         if "maxiter" in config.__dict__:
@@ -33,7 +34,10 @@ class LocalDeme(AbstractDeme):
 
         def fun(x):
             # Some scipy methods (e.g. Powell) overshoot a bound by a rounding error.
-            return sign * self._problem.evaluate(np.clip(x, lower, upper))
+            x = np.clip(x, lower, upper)
+            value = self._problem.evaluate(x)
+            self._evaluated[x.tobytes()] = value
+            return sign * value
 
         result = sopt.minimize(
             fun,
@@ -47,6 +51,7 @@ class LocalDeme(AbstractDeme):
         # Accessing the result object gives the exact number of function evaluations.
         # Callback does not include jacobian approximation etc
         self._n_evals += result.nfev
+        self._evaluated = {}
         # Encapsulating all iterations in a list to match actual metaepoch count
         self._history.append([self._run_history])
         # By design local optimization is a one-metaepoch process
@@ -58,9 +63,10 @@ class LocalDeme(AbstractDeme):
         return self._n_evals
 
     def _history_callback(self, intermediate_result) -> None:
-        ind = Individual(
-            np.clip(intermediate_result.x, self._bounds[:, 0], self._bounds[:, 1]),
-            problem=self._problem,
-        )
-        ind.fitness = self._sign * intermediate_result.fun
+        genome = np.clip(intermediate_result.x, self._bounds[:, 0], self._bounds[:, 1])
+        ind = Individual(genome, problem=self._problem)
+        # Some scipy methods (e.g. COBYLA) report a moderated copy (1e30) of an infinite objective value:
+        # record what the problem itself returned for this point.
+        value = self._evaluated.get(genome.tobytes())
+        ind.fitness = value if value is not None else self._sign * intermediate_result.fun
         self._run_history.append(ind)
